@@ -292,7 +292,7 @@ Proof.
     + unfold sst_ok; cbn. rewrite Est. split_and!; try done. by left.
     + unfold pc_ok; cbn. by rewrite Est.
     + eapply ulog_ok_view; [..|exact Hu]; try done; cbn; rewrite Epc; done.
-    + unfold wait_ok in *; cbn. rewrite Est. intros _. by right.
+    + unfold wait_ok in *; cbn. rewrite Est. intros _. right. done.
     + done.
 Qed.
 
